@@ -81,3 +81,9 @@ Section Numeric.
   Definition index_codec : codec (list Z) (list T) :=
     Codec emit_index parse_index (fun l => l).
 End Numeric.
+
+(* ---- laws restricted to well-formed models (classes whose writer is only defined on / only
+   faithful for a subset: canonical parameter order, top-level scene children are nodes ...) *)
+Definition lawP {M B} (P : M -> Prop) (c : codec M B) : Prop :=
+  (forall m, P m -> cload c (cwrite c m) = Some (cnorm c m) /\ P (cnorm c m)) /\
+  (forall m, P m -> cnorm c (cnorm c m) = cnorm c m).
